@@ -280,6 +280,11 @@ def run(F, rep):
         # flattenModel works on, and returns, a copy (clause shared with C06)
         import c06
         c06.run(F, core.Borrowed(rep, only={'C06.P1', 'C06.P2'}))
+        # helpers that add a scratch child and take it out again (indexStackOf adds a dummy variable to locate a component) leave their argument
+        # unchanged only if removal by pointer removes THAT object: the lookup tries identity before structural equality (clause shared with C09)
+        import c09
+        c09.run(F, core.Borrowed(rep, only={'C09.P5'}))
+    rule_counters(F, rep, 'C12.K1')
     from engines import rule_address_order
     rule_address_order(F, rep, 'C12.A1', lambda g: '/src/' in g.file, 'the library')
 
@@ -297,3 +302,58 @@ def _adds_issue(F, key):
     r = any(F.funcs[k].name == 'addIssue' for k in F.reach([key]))
     _adds[key] = r
     return r
+
+
+def rule_counters(F, rep, rid):
+    """Absolute uses of a service's own issue counters."""
+    from engines import receiver
+    rep.rule(rid, 'a service decides something from the ABSOLUTE value of its own issue counters (errorCount()/issueCount()/... compared with a literal) only if every public entry point that leads there clears the issue list first '
+                  '(removeAllIssues() dominates the way in): the Printer keeps its issues across printModel calls, so there the counters may only be used as differences around a call; `errorCount() == 0` would make what is printed depend on '
+                  'what an earlier call reported')
+    n = 0
+    for g in F.funcs.values():
+        if '/src/' not in g.file or not g.cls:
+            continue
+        svc = g.cls.split('::')[1] if g.cls.startswith('libcellml::') and len(g.cls.split('::')) > 1 else None
+        if svc is None:
+            continue
+        for c in g.walk():
+            if not (c.get('k') == 'Call' and c.get('mc') and c.get('fn') in ('errorCount', 'issueCount', 'warningCount', 'messageCount')):
+                continue
+            r = receiver(c)
+            rt = render(r) if r is not None else 'this'
+            own = r is None or r.get('k') in ('This', 'NoObj') or rt in ('this', 'm' + svc, 'm%s->' % svc) or rt.startswith('m' + svc)
+            if not own:
+                continue
+            # is the value compared with a literal?
+            cmp_ = None
+            ch = c
+            for a in g.ancestors(c):
+                if a.get('k') in ('Paren', 'Cast'):
+                    ch = a
+                    continue
+                op = a.get('op') or a.get('opc')
+                if a.get('k') in ('Bin', 'Call') and op in ('==', '!=', '<', '>', '<=', '>=') and len(a.get('c', [])) == 2:
+                    other = a['c'][1] if a['c'][0] is ch else a['c'][0]
+                    while other.get('k') in ('Paren', 'Cast') and len(other.get('c', [])) == 1:
+                        other = other['c'][0]
+                    if other.get('k') == 'Int':
+                        cmp_ = a
+                break
+            if cmp_ is None:
+                continue
+            n += 1
+            key = '%s|%s' % (g.short, render(cmp_)[:50])
+            entries = [e for e in F.funcs.values() if e.cls == 'libcellml::' + svc and e.j.get('access', 0) == 0 and (e is g or g.key in F.reach([e.key]))]
+            bad = []
+            for e in entries:
+                clears = [x for x in e.walk() if x.get('k') == 'Call' and x.get('fn') == 'removeAllIssues']
+                if e is g:
+                    ways = [c]
+                else:
+                    ways = [x for x in e.walk() if x.get('k') == 'Call' and not x.get('opc') and any(ck == g.key or g.key in F.reach([ck]) for ck in F.callee_keys(x))]
+                if not clears or not all(any(e.cfg().node_dominates(cl, w) for cl in clears) for w in ways):
+                    bad.append(e.short)
+            rep.check(bool(entries) and not bad, rid, key, g.where(cmp_), '%s decides on `%s`, but the issue list is not cleared on the way in from %s: the outcome depends on what earlier calls on the same %s object reported' % (
+                g.short, render(cmp_)[:50], ', '.join(sorted(set(bad))[:4]) or 'any public method', svc), 'entry points %s clear the issues first' % sorted({e.name for e in entries})[:4])
+    rep.ok(rid, 'scan', None, '%d absolute uses of own issue counters' % n)
